@@ -96,6 +96,17 @@ def campaign(c):
                 c.count('meta:reemit')
         c.count('outcome:' + impl['outcome'][0])
         c.case(key, dict(src=text[:400]) if key else None)
+    # a name is not usable inside its own let, nor before it
+    SELF = ['let x = x;', 'let x = x.y;', 'let x = x();', 'let m = f.client_message(seq: m, "hello");\nm;', 'let m = f.client_ack(ack: m);\nm;',
+            'let b = ipv4::udp::broadcast(1.2.3.4:1, 5.6.7.8:2, srcip: b, "x");\nb;', 'let t = text::concat("a", t);', 'let q = text::len(q);',
+            'y;\nlet y = 1;', 'let z = text::concat(w);\nlet w = "a";', 'let g = f.open();\nlet g = f.open();', 'text::concat(later);\nlet later = "x";']
+    for sn in SELF:
+        src = ('import ipv4;\nimport text;\nlet f = ipv4::tcp::flow(1.2.3.4:1, 5.6.7.8:2);\n' + sn + '\n').encode()
+        impl, model = progdiff.run_both(c, src)
+        progdiff.compare(c, src, impl, model, 'selfref')
+        if impl['outcome'][0] != 'failure' or impl['outcome'][1] not in ('Name', 'MultipleAssign'):
+            c.violation('sem:self-reference', 'a name was usable inside or before its own let: %s -> %s' % (sn.replace('\n', ' '), impl['outcome'],), dict(src=src.decode()))
+        c.case(('self', sn), dict(kind='selfref', stmt=sn))
     # (f) left-to-right evaluation with a stateful buffer
     for i in range(20 if c.quick else 300):
         r = c.rng.fork('ord%d' % i)
